@@ -15,4 +15,5 @@ INVARIANTS
   QResults
 CONSTANTS
   OwedSigQuirk = FALSE
+  StrandQuirk = FALSE
 CHECK_DEADLOCK TRUE
